@@ -157,6 +157,8 @@ lit_items = SpecMap("lit_items", lambda v, ft, no: lit_expr(v, ft, z3.BoolVal(Tr
 lit_keys = SpecMap("lit_keys", lambda f: const(V.attr_of(V.attr_of(f, G.ObjectFieldNode, "name"), G.NameNode, "value")))
 lit_vals = SpecMap("lit_vals", lambda f, ft: lit_expr(V.attr_of(f, G.ObjectFieldNode, "value"), ft, z3.BoolVal(True), z3.BoolVal(True)),
                    param_sorts=(V.Val,))
+import keyword as _kw
+KWLIST = list(_kw.kwlist)
 _node, _ft, _nl, _no = z3.Const("node", V.Val), z3.Const("ft", V.Val), z3.Bool("nl"), z3.Bool("no")
 _val = lit_value(_node)
 _list = mk(ast.List, elts=V.VList(lit_items(V.vt(_val), _ft, _no)))
@@ -171,8 +173,11 @@ z3.RecAddDefinition(lit_expr, [_node, _ft, _nl, _no],
     # an enum literal denotes the member of the enum type *of its position* (ghost leaf_type_at); inside an object
     # literal the enclosing <Model>.model_validate coerces the value name to the member (assumed pydantic contract), and
     # the function is not told the position's type, so the value name is emitted
+    # the member is named like the value, with "_" appended when the value is a Python keyword (how EnumsGenerator names
+    # the members of the generated enum class - stated here independently of both functions)
     z3.If(is_lit(_node, G.EnumValueNode),
-          z3.If(_no, const(_val), name_(V.VStr(z3.Concat(V.vs(ENUM_TYPE_AT(_node)), V.S("."), V.vs(_val))))),
+          z3.If(_no, const(_val), name_(V.VStr(z3.Concat(V.vs(ENUM_TYPE_AT(_node)), V.S("."), V.vs(_val),
+                                                         z3.If(z3.InRe(V.vs(_val), z3.Union(*[z3.Re(k) for k in KWLIST])), V.S("_"), V.S("")))))),
     # a list is emitted as a plain list; only the outermost default is wrapped in Field(default_factory=...)
     z3.If(is_lit(_node, G.ListValueNode), z3.If(_nl, _list, field_default_factory(_list)),
     # an object literal: plain dict inside another object (validated by the enclosing model_validate); otherwise
